@@ -175,8 +175,10 @@ def _attrs_start(src, masked, head_start):
 
 def _find_all_in(src, masked, lo, hi, seg):
     seg = seg.strip()
-    kind, _, rest = seg.partition(" ")
-    rest = rest.strip()
+    mk = re.match(r"(mod|impl|fn|struct|enum|trait)\b\s*(.*)$", seg, re.S)
+    if not mk:
+        raise LostAnchor("bad path segment: " + seg)
+    kind, rest = mk.group(1), mk.group(2).strip()
     if kind == "mod":
         rx = r"\bmod\s+%s\s*\{" % re.escape(rest)
         for m, s in _depth0_positions(masked, lo, hi, rx):
@@ -221,7 +223,7 @@ def _find_all_in(src, masked, lo, hi, seg):
             hs = _head_start(masked, lo, s)
             yield Item(src, masked, kind, rest, _attrs_start(src, masked, hs), hs, o, match_close(masked, o))
     else:
-        raise ValueError("bad path segment: " + seg)
+        raise LostAnchor("bad path segment: " + seg)
 
 
 def _head_start(masked, lo, kw_start):
